@@ -302,11 +302,13 @@ func (q *eqCheck) implPoly(t *sym.Term, open map[*sym.Term]bool, memo map[*sym.T
 		switch {
 		case isConst && !q.top[t] && !open[t]:
 			p = poly.Const(q.liftConst(cv))
-		case t.Def != nil && (!proven || open[t]):
+		case t.Def != nil && (!proven || open[t] || open[q.rep(t)]):
 			p, err = q.implPoly(t.Def, open, memo)
 		default:
-			q.byID[t.ID] = t
-			p = poly.Var(t.ID)
+			// all implementation atoms proved equal to one reference node share one variable
+			rp := q.rep(t)
+			q.byID[rp.ID] = rp
+			p = poly.Var(rp.ID)
 		}
 	case sym.OpAdd, sym.OpSub, sym.OpMul:
 		var a, b poly.Poly
@@ -460,10 +462,10 @@ func (pe *pairEmitter) impl(t *sym.Term) string {
 		_, proven := pe.q.cutRef[t]
 		if cv, isConst := pe.q.constCut[t]; isConst && !pe.q.top[t] && !pe.open[t] {
 			s = smtLit(pe.q.liftConst(cv))
-		} else if t.Def != nil && (!proven || pe.open[t]) {
+		} else if t.Def != nil && (!proven || pe.open[t] || pe.open[pe.q.rep(t)]) {
 			s = pe.impl(t.Def)
 		} else {
-			s = pe.declare(t)
+			s = pe.declare(pe.q.rep(t))
 		}
 	case sym.OpIsZero, sym.OpUF:
 		s = pe.declare(t)
@@ -626,6 +628,17 @@ func varsOf(p poly.Poly) map[int]bool {
 		}
 	}
 	return out
+}
+
+// rep returns the representative of t's equivalence class (the first implementation term proved
+// equal to the same reference node), t itself if it has none.
+func (q *eqCheck) rep(t *sym.Term) *sym.Term {
+	if n, ok := q.cutRef[t]; ok {
+		if r, ok := q.cutImpl[n]; ok && r.Op == sym.OpAtom && t.Op == sym.OpAtom {
+			return r
+		}
+	}
+	return t
 }
 
 func (q *eqCheck) setCut(t *sym.Term, n *ref.N) {
